@@ -528,7 +528,7 @@ def make_source(cfg, log, vfs=None, hook=None, extra_remote=()):
     cfg = norm_cfg(cfg)
     src_id = UnsignedByteField(cfg["src_id"][1], cfg["src_id"][0])
     dst_id = UnsignedByteField(cfg["dst_id"][1], cfg["dst_id"][0])
-    user = RecUser(vfs or NativeFilestore(), log, "src", hook)
+    user = RecUser(vfs if vfs is not None else NativeFilestore(), log, "src", hook)
     fh = RecFaults(log, "src", cfg["fh_src"])
     table = RemoteEntityCfgTable([remote_cfg_for(cfg, dst_id), *extra_remote])
     seqp = _seq_provider(cfg["seq_width"], cfg["seq_start"])
@@ -546,7 +546,7 @@ def make_dest(cfg, log, vfs=None, hook=None, extra_remote=()):
     cfg = norm_cfg(cfg)
     src_id = UnsignedByteField(cfg["src_id"][1], cfg["src_id"][0])
     dst_id = UnsignedByteField(cfg["dst_id"][1], cfg["dst_id"][0])
-    user = RecUser(vfs or NativeFilestore(), log, "dst", hook)
+    user = RecUser(vfs if vfs is not None else NativeFilestore(), log, "dst", hook)
     fh = RecFaults(log, "dst", cfg["fh_dst"])
     table = RemoteEntityCfgTable([remote_cfg_for(cfg, src_id), *extra_remote])
     h = DestHandler(
